@@ -70,4 +70,7 @@ def greaseQuic (c : Case) : Verdict :=
         else .ok tag
   | _, _, _, _, _, _, _, _, _ => .bad "grease_quic: bad output"
 
+/-- families served by this module (collected by the generated `DrvAll`). -/
+def families : List (String × (Case → Verdict)) := [("grease_val", greaseVal), ("grease_hello", greaseHello), ("grease_quic", greaseQuic)]
+
 end Drv.C04
